@@ -576,6 +576,10 @@ func (a *AddrManager) nextAddresses(dbTransaction db.DBTransaction, checkfunc fu
 }
 
 func (a *AddrManager) updateManagedAddress(dbTransaction db.DBTransaction, managedAddresses []*ManagedAddress) error {
+	// the address maps are read under a.mu by other API calls (signing, listing) that do not
+	// hold the keystore manager's lock
+	a.mu.Lock()
+	defer a.mu.Unlock()
 	for _, managedAddress := range managedAddresses {
 		a.addrs[managedAddress.address] = managedAddress
 		a.index[managedAddress.derivationPath.Index] = managedAddress.address
